@@ -1000,6 +1000,11 @@ def gen_probe_specs(rng, tier):
                             spec['out'] = {'kind': o, 'shape': shape, 'dtype': rdt}
                     elif o == 'dtype' and np.dtype(dtype).kind == 'f' and name not in ('ldexp',):
                         spec['kwargs'] = {'dtype': rng.choice(['float32', 'float64'])}
+                        if kind != 'pow' and rng.random() < 0.5 and uf.types and any(
+                                t.split('->')[1] in 'fd' for t in uf.types):
+                            # out of the OTHER precision: computed in dtype=, written back converted
+                            other = 'float64' if spec['kwargs']['dtype'] == 'float32' else 'float32'
+                            spec['out'] = {'kind': rng.choice(['elem', 'arr']), 'shape': shape, 'dtype': other}
                     yield spec
                 # reduce / accumulate / outer / at / reduceat
                 for name in [n for n in REDUCIBLE if n in bina or n in ('add', 'multiply')]:
@@ -1159,11 +1164,12 @@ def legacy_eval(spec):
 
 def legacy_key(spec, cat):
     sk = spec['space']['kind']
-    if sk == 'pow' and getattr(np, spec['ufunc'], None) is not None and getattr(np, spec['ufunc']).nout == 2 \
-            and cat == 'raises':
+    uf = getattr(np, spec['ufunc'], None)
+    uf = uf if isinstance(uf, np.ufunc) else None
+    if sk == 'pow' and uf is not None and uf.nout == 2 and cat == 'raises':
         return 'legacy-pspace-two-output-ufuncs'
     if sk == 'disc' and spec.get('out') is not None and spec['out']['kind'] == 'tensor' \
-            and cat in ('raises', 'out-identity') and getattr(np, spec['ufunc']).nin == 1:
+            and cat in ('raises', 'out-identity') and uf is not None and uf.nin == 1:
         return 'legacy-discr-unary-out-tensor'
     if sk == 'pow' and cat == 'raises' and len(spec['ins']) == 2 and spec['ins'][1][0] == 'arr':
         return 'legacy-pspace-binary-array-operand'
